@@ -36,6 +36,8 @@ pub fn replay(args: &[String]) {
         vec![
             Variant { name: "plain", p_total: 1, p_idx: 0, alpha: 1.0, beta: 0.0 },
             Variant { name: "affine", p_total: 2, p_idx: 1, alpha: -2.5, beta: 7.0 },
+            // location >> spread (integer-valued, so sums stay exact in f32): a one-pass variance cancels here
+            Variant { name: "far", p_total: 2, p_idx: 1, alpha: 1.0, beta: 3000.0 },
         ]
     } else {
         vec![
@@ -43,6 +45,7 @@ pub fn replay(args: &[String]) {
             Variant { name: "among-others", p_total: 3, p_idx: 1, alpha: 1.0, beta: 0.0 },
             Variant { name: "affine", p_total: 2, p_idx: 0, alpha: -2.5, beta: 7.0 },
             Variant { name: "scaled", p_total: 4, p_idx: 3, alpha: 0.001, beta: 0.01 },
+            Variant { name: "far", p_total: 2, p_idx: 1, alpha: 1.0, beta: 3000.0 },
         ]
     };
     let mut evals = 0u64;
@@ -59,7 +62,8 @@ pub fn replay(args: &[String]) {
             if a[0].len() > 16 { json!({"case": c["case"], "C": a.len(), "N": a[0].len()}) } else { json!({"a": a}) }
         };
         for v in &variants {
-            let tol = if v.name == "plain" || v.name == "among-others" { rtol } else { rtol * 8.0 };
+            // "far": the chain means themselves are only known to beta * 2^-24 in f32, which limits the between-chain term
+            let tol = if v.name == "plain" || v.name == "among-others" { rtol } else if v.name == "far" { 5e-3 } else { rtol * 8.0 };
             let arr = build(&a, v, 1);
             let r = catch(|| split_rhat_mean_ess(arr.view()));
             evals += 1;
@@ -88,7 +92,8 @@ pub fn replay(args: &[String]) {
                 n_ess += 1;
                 let e = f("mn") * f("vn") / (2.0 * f("out") - f("vn"));
                 let x = es[v.p_idx] as f64;
-                if !close(x, e) && (x - e).abs() > tol * 4.0 * e.abs() && ess_bad.len() < 20 {
+                let etol = if v.name == "far" { 3e-2 } else { tol * 4.0 };
+                if !close(x, e) && (x - e).abs() > etol * e.abs() && ess_bad.len() < 20 {
                     ess_bad.push(json!({"case": brief(), "variant": v.name, "ess": x, "expected": e}));
                 }
             }
